@@ -312,6 +312,14 @@ def build5(name="OPT"):
                ext=[Comp("zr", Type("INTEGER"), has_default=True, default=0), Comp("zn", Type("IA5String"), optional=True)]))
     m.add("X2", Type("SEQUENCE", comps=[Comp("ya", Type("INTEGER"), has_default=True, default=0), Comp("yb", Type("BOOLEAN"), has_default=True, default=True),
                                         Comp("yc", Type("INTEGER", value_c=K.simple(0, 255)), optional=True)]))
+    # negative DEFAULTs and negatively numbered enumeration items: the wide representations (INTEGER_t, ENUMERATED_t) compare and
+    # print them by other code than the native ones
+    m.add("En", Type("ENUMERATED", items=[("falling", -1), ("flat", 0), ("rising", 1), ("steep", -300)]))
+    m.add("X4", Type("SEQUENCE", comps=[Comp("bias", Type("INTEGER"), has_default=True, default=-1),
+                                        Comp("mode", Type("REF", ref="En"), has_default=True, default=-1),
+                                        Comp("k", Type("INTEGER", value_c=K.simple(-5, 5)), has_default=True, default=-5),
+                                        Comp("far", Type("INTEGER"), has_default=True, default=-70000),
+                                        Comp("n", Type("INTEGER"))]))
     m.add("N1", Type("INTEGER", value_c=K([(("range", 0, MAX), False, None)])))
     m.add("N2", Type("INTEGER", value_c=K.simple(-5, 5)))
     m.add("N3", Type("INTEGER"))
@@ -344,6 +352,11 @@ def values5(mod, name, rng, quick):
         out = [{"za": 7}, {"za": 7, "zr": 2}, {"za": 0, "zn": "hi"}, {"za": 255, "zr": -1, "zn": ""}]
     elif name == "X2":
         out = [{}, {"ya": 3}, {"yb": False}, {"yc": 255}, {"ya": -128, "yb": False, "yc": 0}]
+    elif name == "En":
+        out = [-1, 0, 1, -300]
+    elif name == "X4":
+        out = [{"n": 1}, {"n": 0, "bias": -1, "mode": -1, "k": -5, "far": -70000}, {"n": -1, "bias": -2, "mode": -300, "k": 5, "far": -70001},
+               {"n": 2, "bias": 255, "mode": 1}, {"n": 3, "mode": 0, "far": 70000}]
     elif name == "N1":
         out = [0, 1, 127, 128, 255, 256, 65535, 65536, (1 << 31) - 1, 1 << 31, (1 << 32) - 1, 1 << 32, (1 << 63) - 1]
     elif name == "N2":
